@@ -22,6 +22,7 @@ struct TierCfg {
 
 struct RunStats {
     int64_t execs = 0, faultedExecs = 0;
+    int64_t bypassAllocs = 0;  // requests made with the plain libc allocator instead of the H3_MEMORY seam
     int64_t fired[F_KINDS] = {0};
     std::set<uint64_t> scenarios;
     std::set<uint64_t> cases;  // distinct (input, fault kind, first failing index) with a fault fired
@@ -29,6 +30,7 @@ struct RunStats {
     void toJson(JVal &j) const {
         j.set("execs", execs);
         j.set("faulted_execs", faultedExecs);
+        if (bypassAllocs) j.set("seam_bypass_allocs", bypassAllocs);
         JP f = JVal::obj();
         for (int k = 1; k < F_KINDS; k++)
             if (fired[k]) f->set(FAULT_NAMES[k], fired[k]);
